@@ -154,7 +154,8 @@ def _rand_variant(rng, seq, lo, hi, kind):
 
 
 def random_spec(rng, want_cn=None, pseudogene=None, kinds=None, hostile=0.3, max_len=None,
-                gaps=None, strands=None, n_majors=None, silent_kinds=None, name="GENX", structural=None):
+                gaps=None, strands=None, n_majors=None, silent_kinds=None, name="GENX", structural=None,
+                tandem_del=False):
     """Random consistent database.  Returns dict with keys: yml (the YAML dict), truth (dict)."""
     pname = name + "P"
     if pseudogene is None:
@@ -233,6 +234,30 @@ def random_spec(rng, want_cn=None, pseudogene=None, kinds=None, hostile=0.3, max
                 used.append(sp)
                 return [pos1, op]
         return None
+
+    # optional: a tandem tract (unit of 2-3 bases, 3-5 repeats and a partial trailing unit) written into the sequence
+    # with a catalogued deletion of one unit somewhere inside it (its placement is one of several equivalent ones)
+    tandem_variant = None
+    if tandem_del:
+        import random as _random
+
+        r2 = _random.Random(rng.random())
+        for _ in range(30):
+            reg = r2.choice([r for r in order if rs[r][1] - rs[r][0] >= 40])
+            lo, hi = rs[reg]
+            unit = rand_seq(r2, r2.choice([2, 2, 3]))
+            if len(set(unit)) < 2:
+                continue
+            tract = unit * r2.choice([3, 4, 5]) + unit[: r2.choice([1, len(unit) - 1])]
+            i = r2.randint(lo + 8, hi - 8 - len(tract))
+            # the tract must end where it ends: flanking bases must not extend it
+            left = r2.choice([b for b in BASES if b != tract[-1] and b != unit[-1]])
+            right = r2.choice([b for b in BASES if b != tract[len(tract) % len(unit)] and b != unit[0]])
+            seq = seq[: i - 1] + left + tract + right + seq[i + len(tract) + 1:]
+            k = r2.randint(0, len(tract) - len(unit))
+            tandem_variant = [i + k + 1, f"del{tract[k: k + len(unit)]}", "-", "frameshift"]
+            used.append((i - 1, i + len(tract) + 1))
+            break
 
     n_major = n_majors or rng.randint(2, 6)
     func_pool = []
@@ -328,6 +353,8 @@ def random_spec(rng, want_cn=None, pseudogene=None, kinds=None, hostile=0.3, max
         majors.append((n_major + 2, [list(close_pair[0]), list(close_pair[1])]))
     if twin_pair:
         majors.append((n_major + 3, [list(twin_pair[0]), list(twin_pair[1])]))
+    if tandem_variant:
+        majors.append((n_major + 4, [list(tandem_variant)]))
     for num, core in majors:
         n_minor = rng.choice([1, 1, 2, 3])
         seen_sets = []
@@ -584,7 +611,7 @@ def random_spec(rng, want_cn=None, pseudogene=None, kinds=None, hostile=0.3, max
     truth = {
         "name": name, "pseudogene": pname if pseudogene else None, "L": L, "seq": seq,
         "order": order, "rs": rs, "builds": builds, "n_exons": n_exons, "exons1": exons1,
-        "fusions": fusion_alleles, "zero_pce": zero_pce,
+        "fusions": fusion_alleles, "zero_pce": zero_pce, "tandem_variant": tandem_variant,
     }
     return {"yml": yml, "truth": truth}
 
